@@ -224,6 +224,19 @@ def run_case(p, drv):
                 fail('C13:invalid-label', f'two-column binary scores decode to labels {L2c.tolist()}')
         except Exception as e:  # noqa: BLE001
             fail(f'C13:raises:{type(e).__name__}', f'two-column binary scores: {e}')
+        # (b) binary scores given as a plain vector of N values (one score per sample): the same rows as the (N, 1) column
+        try:
+            v = torch.cat([torch.rand(5, generator=g2), torch.randn(2, generator=g2) * 3.0])
+            P1d = conv.numerical_to_probas(v).double()
+            Pcol = conv.numerical_to_probas(v[:, None]).double()
+            L1d = conv.numerical_to_labels(v)
+            if tuple(P1d.shape) != (v.shape[0], 2) or not torch.equal(P1d, Pcol):
+                fail('C13:invalid-proba', f'a vector of {v.shape[0]} binary scores decodes to shape {tuple(P1d.shape)}, expected the '
+                                          f'({v.shape[0]}, 2) rows of the same scores given as a column')
+            elif tuple(L1d.shape) != (v.shape[0],) or not torch.equal(L1d, conv.numerical_to_labels(v[:, None])):
+                fail('C13:invalid-label', f'a vector of {v.shape[0]} binary scores decodes to labels {L1d.tolist()}')
+        except Exception as e:  # noqa: BLE001
+            fail(f'C13:raises:{type(e).__name__}', f'vector of binary scores: {e}')
         # (b) a converter whose leaves answer with logits (logistic solver): the same round trip, and labels = arg-max of
         #     the sigmoid probabilities (first maximum on a tie, i.e. logit 0 -> class 0)
         import copy
